@@ -8,7 +8,7 @@ def check(run):
     n = 24 if run.tier == "quick" else 400
     ops = 350 if run.tier == "quick" else 2500
     kvcommon.drive(run, "map", n, ops, boundary=(60 if run.tier == "quick" else 2000),
-                   thin=(16 if run.tier == "quick" else 300))
+                   thin=(16 if run.tier == "quick" else 300), hugekey=(10 if run.tier == "quick" else 200))
     return run.finish(level=LEVEL, rule=kvcommon.RULE, assumptions=kvcommon.ASSUME)
 
 def replay(run, path):
